@@ -226,8 +226,11 @@ class TimedSpace(Subspace):
                             exp = R.ema(ks, d.py, halflife=hsecs, times=secs, mask=mref)
                             tag = (f"halflife={hl} unit={unit} origin={origin} gaps={list(gaps)} "
                                    f"mask={''.join(map(str, ms)) if masked else 'none'}")
-                            for entry in ("ema_grouped", "GroupBy.ema", "GroupBy.ema(DatetimeIndex)"):
+                            for entry in ("ema_grouped", "GroupBy.ema", "GroupBy.ema(DatetimeIndex)",
+                                          "GroupBy.ema(labelled)", "GroupBy.ema(labelled,gsorted)"):
                                 if entry != "GroupBy.ema" and (unit not in ("ns", "us") or hsecs != 1.5):
+                                    continue
+                                if "labelled" in entry and (unit != "ns" or origin != 0):
                                     continue
                                 res.execs += 1
                                 try:
@@ -236,6 +239,23 @@ class TimedSpace(Subspace):
                                             out = ema_grouped(codes, 3, d.V, halflife=hl, times=T,
                                                               mask=M if masked else None)
                                             obs = gbh.norm_np(out)
+                                        elif "labelled" in entry:
+                                            # every argument is a Series under the same integer labels in
+                                            # another order than the positions (label = n-1-position)
+                                            lab = pd.Index(list(range(n))[::-1])
+                                            S_ = lambda a: pd.Series(np.asarray(a), index=lab)  # noqa
+                                            out = GroupBy(S_(d.keyarg)).ema(
+                                                S_(d.V), halflife=hl, times=S_(T), mask=S_(M) if masked else None,
+                                                index_by_groups="gsorted" in entry)
+                                            got_lab = [l if not isinstance(l, tuple) else l[-1]
+                                                       for l in gbh.norm_labels(out.index)]
+                                            vals_ = gbh.norm_values(out)[0]
+                                            if sorted(got_lab) != list(range(n)) and "gsorted" not in entry:
+                                                res.fail("layout", f"{tag} [{entry}]: index {got_lab}")
+                                                continue
+                                            obs = [None] * n
+                                            for l, v in zip(got_lab, vals_):
+                                                obs[n - 1 - l] = v
                                         else:
                                             Tg = T if entry == "GroupBy.ema" else pd.DatetimeIndex(T)
                                             out = GroupBy(d.keyarg).ema(d.V, halflife=hl, times=Tg,
